@@ -4,8 +4,9 @@
 (* MaxSteps top-level steps, of                                             *)
 (*    br    open a read-only transaction (at most MaxR at a time)           *)
 (*    er i  close reader i (any order)                                      *)
-(*    wc    a writer runs an update / delete heavy chunk and commits        *)
-(*    wr    a writer runs a chunk and rolls back                            *)
+(*    wb    a writer begins and runs an update / delete heavy chunk         *)
+(*    wc    the open writer commits          wr    the open writer rolls back *)
+(*          (readers may begin and end while the writer is in flight)       *)
 (* After EVERY step every open reader is re-read in full (scan, counter,    *)
 (* point lookups, a seek) and must still show the snapshot L0 holds for it  *)
 (* (KVStore!SnapshotStable); the results are computed with KVOps!Do.        *)
@@ -14,9 +15,10 @@ EXTENDS KVOps, Json
 
 CONSTANTS NKeys, NVals, MaxSteps, MaxR, Bucket
 
-VARIABLES committed, views, hist, n, chunk, nextR
+VARIABLES committed, views, hist, n, chunk, nextR, wtx
 
-gvars == <<committed, views, hist, n, chunk, nextR>>
+gvars == <<committed, views, hist, n, chunk, nextR, wtx>>
+NoWriter == [t |-> 0]
 
 Op(t, c, p, k, v) == [a |-> "op", t |-> t, c |-> c, p |-> p, k |-> k, v |-> v,
                       lk |-> "U", lo |-> 0, hk |-> "U", hi |-> 0]
@@ -53,7 +55,7 @@ ReReadSeq(vs, ids) ==
 ReRead(vs) == ReReadSeq(vs, SetToSortSeq(DOMAIN vs, LAMBDA x, y : x < y))
 
 GInit ==
-    /\ committed = EmptyTree /\ views = <<>> /\ hist = <<>> /\ n = 0 /\ chunk = 0 /\ nextR = 1
+    /\ committed = EmptyTree /\ views = <<>> /\ hist = <<>> /\ n = 0 /\ chunk = 0 /\ nextR = 1 /\ wtx = NoWriter
 
 BeginReader ==
     /\ n < MaxSteps /\ Cardinality(DOMAIN views) < MaxR
@@ -61,7 +63,7 @@ BeginReader ==
        /\ views' = vs
        /\ hist' = hist \o <<[a |-> "begin", t |-> 100 + nextR, w |-> FALSE]>> \o ReRead(vs)
     /\ nextR' = nextR + 1 /\ n' = n + 1
-    /\ UNCHANGED <<committed, chunk>>
+    /\ UNCHANGED <<committed, chunk, wtx>>
 
 EndReader(i) ==
     /\ n < MaxSteps /\ i \in DOMAIN views
@@ -69,21 +71,27 @@ EndReader(i) ==
        /\ views' = vs
        /\ hist' = hist \o <<[a |-> "drop", t |-> 100 + i]>> \o ReRead(vs)
     /\ n' = n + 1
-    /\ UNCHANGED <<committed, chunk, nextR>>
+    /\ UNCHANGED <<committed, chunk, nextR, wtx>>
 
-Writer(commit) ==
-    /\ n < MaxSteps
+WriterBegin ==
+    /\ n < MaxSteps /\ wtx = NoWriter
     /\ LET t == 200 + n
            r == Run(committed, TRUE, ChunkOps(t, chunk), <<>>)
-       IN /\ committed' = IF commit THEN r.tree ELSE committed
-          /\ hist' = hist \o <<[a |-> "begin", t |-> t, w |-> TRUE]>> \o r.steps
-                          \o <<[a |-> IF commit THEN "commit" ELSE "drop", t |-> t]>> \o ReRead(views)
+       IN /\ wtx' = [t |-> t, tree |-> r.tree]
+          /\ hist' = hist \o <<[a |-> "begin", t |-> t, w |-> TRUE]>> \o r.steps \o ReRead(views)
     /\ chunk' = chunk + 1 /\ n' = n + 1
-    /\ UNCHANGED <<views, nextR>>
+    /\ UNCHANGED <<committed, views, nextR>>
+
+WriterEnd(commit) ==
+    /\ n < MaxSteps /\ wtx # NoWriter
+    /\ committed' = IF commit THEN wtx.tree ELSE committed
+    /\ hist' = hist \o <<[a |-> IF commit THEN "commit" ELSE "drop", t |-> wtx.t]>> \o ReRead(views)
+    /\ wtx' = NoWriter /\ n' = n + 1
+    /\ UNCHANGED <<views, chunk, nextR>>
 
 \* a behaviour is complete when MaxSteps steps were taken: close the readers, read back
 Finish ==
-    /\ n = MaxSteps
+    /\ n = MaxSteps /\ wtx = NoWriter
     /\ PrintT(ToJson([nk |-> NKeys, nv |-> NVals,
                       steps |-> hist
                                 \o [i \in 1..Len(SetToSortSeq(DOMAIN views, LAMBDA x, y : x < y)) |->
@@ -92,9 +100,17 @@ Finish ==
                                 \o Run(committed, FALSE, ReadOps(999), <<>>).steps
                                 \o <<[a |-> "drop", t |-> 999]>>]))
     /\ n' = MaxSteps + 1
-    /\ UNCHANGED <<committed, views, hist, chunk, nextR>>
+    /\ UNCHANGED <<committed, views, hist, chunk, nextR, wtx>>
 
-GNext == BeginReader \/ (\E i \in DOMAIN views : EndReader(i)) \/ Writer(TRUE) \/ Writer(FALSE) \/ Finish
+\* a writer still open at the bound is rolled back (does not count as a step)
+FinishWriter ==
+    /\ n = MaxSteps /\ wtx # NoWriter
+    /\ hist' = hist \o <<[a |-> "drop", t |-> wtx.t]>> \o ReRead(views)
+    /\ wtx' = NoWriter
+    /\ UNCHANGED <<committed, views, n, chunk, nextR>>
+
+GNext == BeginReader \/ (\E i \in DOMAIN views : EndReader(i)) \/ WriterBegin \/ WriterEnd(TRUE) \/ WriterEnd(FALSE)
+         \/ FinishWriter \/ Finish
 
 \* a reader's view never changes: by construction views[i] is only ever set at BeginReader
 GSpec == GInit /\ [][GNext]_gvars
